@@ -273,6 +273,36 @@ def run(tier):
                 chk.fail('count:wrong', case, f'{n} values written, the component announces {cnt} and carries {len(toks)}')
             elif any(not convert.token_matches(v, t) for v, t in zip(vals, toks)):
                 chk.fail('count:values', case, 'values differ after reading back')
+    # OBNAME / OBJREF of an object whose name, origin reference or copy number changes between two encodings: what is
+    # encoded is always the object's current identity
+    if bres.ok:
+        from dliswriter.logical_record import eflr_types as T2
+        rreqs, rmeta = [], []
+        for k in range(60 if tier == 'quick' else 600):
+            zs = T2.ZoneSet()
+            it = T2.ZoneItem(R.choice(['Z', 'ZONE-A', 'A' * 40]), parent=zs, origin_reference=R.choice([1, 5, 127, 128, 300]))
+            steps = []
+            for _ in range(R.choice([1, 2, 3])):
+                how = R.choice(['obname-attr', 'write_struct-obname', 'write_struct-objref'])
+                # encode once (fills whatever caches there are) ...
+                first = it.obname if how == 'obname-attr' else sw.write_struct(RC.OBNAME if 'obname' in how else RC.OBJREF, it)
+                # ... then change the identity through the public attributes
+                what = R.choice(['name', 'origin', 'both'])
+                if what in ('name', 'both'):
+                    it.name = R.choice(['RENAMED', 'Z2', 'B' * 100, it.name + 'X'])
+                if what in ('origin', 'both'):
+                    it.origin_reference = R.choice([2, 9, 127, 128, 16384])
+                steps.append(f'{how}; then {what} changed')
+                for enc in ('obname-attr', 'write_struct-obname', 'write_struct-objref'):
+                    out = it.obname if enc == 'obname-attr' else sw.write_struct(RC.OBNAME if 'obname' in enc else RC.OBJREF, it)
+                    rreqs.append(f"dec {'objref' if 'objref' in enc else 'obname'} {hexs(out)}")
+                    rmeta.append((list(steps), enc, it.origin_reference, it.copy_number, it.name, out))
+        for (steps, enc, o, c, n, out), rep in zip(rmeta, model.ask(rreqs)):
+            chk.case('identity-after-change', nontrivial_key=('idc', tuple(steps), enc))
+            want_tail = f'{o},{c},{hexs(n.encode())} -'
+            if not rep.startswith('ok') or not rep.endswith(want_tail):
+                chk.fail('obname:stale-after-change', {'steps': steps, 'encoder': enc, 'current_identity': [o, c, n]},
+                         f'encoded {out.hex()[:80]} decodes as {rep[:120]!r}; the object is now ({o}, {c}, {n!r})')
     chk.exhaustive = False
     return finish(chk, bres, THEOREMS,
                   partial_note='float64->float32 rounding of a Python float given to FSINGL and str() of non-str '
